@@ -314,6 +314,7 @@ pub struct Counters {
     pub eager_advances: u64,
     pub clock_jumps: u64,
     pub wall_steps_back: u64,
+    pub wall_steps_fwd: u64,
     pub stall_skips: u64,
     pub blocks: u64,
     pub select_choices: u64,
@@ -1173,7 +1174,7 @@ pub fn jump_clock_ns(ns: u64) {
     set_now(&mut st, t);
 }
 
-/// Wall-clock skew (ns, <= 0): what `time::SystemTime::now()` reads is the virtual clock plus
+/// Wall-clock skew (ns, either sign): what `time::SystemTime::now()` reads is the virtual clock plus
 /// this.  Timers, sleeps and `Instant` keep following the (monotonic) virtual clock, as on a
 /// real machine whose administrator or NTP daemon steps CLOCK_REALTIME.
 pub static WALL_SKEW_NS: std::sync::atomic::AtomicI64 = std::sync::atomic::AtomicI64::new(0);
@@ -1187,6 +1188,16 @@ pub fn wall_step_back_ns(ns: u64) {
     // never before the epoch second the run started in: `Time::unix()` unwraps there
     let floor = -(st.now.saturating_sub(1_000_000_000) as i64);
     WALL_SKEW_NS.store((cur - ns as i64).max(floor), Ordering::SeqCst);
+}
+
+/// Fault: step the wall clock forward by `ns` (monotonic time, timers and sleeps are unaffected:
+/// no tick fires early because of it).
+pub fn wall_step_fwd_ns(ns: u64) {
+    let Some((sim, _me)) = ctx() else { return };
+    let mut st = sim.lock();
+    st.ctr.wall_steps_fwd += 1;
+    let cur = WALL_SKEW_NS.load(Ordering::SeqCst);
+    WALL_SKEW_NS.store(cur.saturating_add(ns.min(i64::MAX as u64 / 4) as i64), Ordering::SeqCst);
 }
 
 /// The wall clock: virtual clock plus skew.
